@@ -2,14 +2,22 @@ SPEC_PART = dict(
     props_file="C17_tdigest",
     legs=[dict(family="tdigest", focus="extremes", oracles=["no_panic", "prop_ok", "c15_ok"], tie_oracles=["tie_ok"], profiles=["debug", "release"],
                mask=[0, 1, 7, 8, 9, 10, 14, 15, 17, 19, 21], n_quick=36, n_thorough=240, panic_is_violation=True)],
-    trusted=["tdigest: panic sites modelled as Stuck: TDigestMut::new(k < 10), the assert_ne! / usize underflow sites of rank, "
-             "unreachable!() in cdf, check_split_points, every reader site; the merge pass (do_merge) is a relation, its sites "
-             "(buffer[0], Centroid::add's checked weight, the u64 weight counter, 2 * k) are observed in both profiles, not modelled"],
+    trusted=["tdigest: panic sites modelled as Stuck: TDigestMut::new(k < 10), assert!(k >= 10) of make on the readers' path, the "
+             "assert_ne! / usize underflow sites of rank, unreachable!() in cdf, check_split_points; the merge pass (do_merge) is a "
+             "relation, its sites (buffer[0], Centroid::add's checked weight and finite-mean debug assertion, the u64 weight counter, "
+             "2 * k) and all arithmetic overflow / indexing are observed in both profiles, not modelled",
+             "tdigest: [reach] uses the exact relation merge_rel 0; the crate's passes are validated by valid_merge at 1e-9"],
     assumptions=["tdigest: k >= 10, query values not NaN, ranks in [0,1], split points strictly increasing, total weight below 2^64"],
-    covers="tdigest: TDigestMut::new(k >= 10) is Ok; rank / quantile / cdf / pmf are Ok (never Stuck) on every well-formed view, in "
-           "particular on every compressed in-process digest, for every strictly increasing split list including []; the readers never "
-           "reach a panic site and the round trip of a serializable state is Ok (Props/C17_tdigest.v); tie: valid histories at the "
+    covers="tdigest: NO program-level theorem 'for all sequences of API calls' (the merge pass is a relation, a sequence of calls has no "
+           "single modelled execution; C17's 'for all programs' wording does not apply to this family). Proved instead: "
+           "TDigestMut::new(k >= 10) is Ok; rank / quantile / cdf / pmf are Ok (never Stuck) on every well-formed view, for every "
+           "strictly increasing split list including []; every compressed non-empty state reachable by ANY legal outcome of the merge "
+           "passes -- from new(k) or from a decoded image -- is such a view, and every history meeting its preconditions can be "
+           "continued (progress); a digest the modelled reader returns is a legal history start provided its means are sorted and "
+           "everything lies inside [min,max] (the crate checks neither: images violating it are harness-only); the readers never "
+           "reach the modelled panic site and the round trip of a serializable state is Ok (Props/C17_tdigest.v); tie: valid histories at the "
            "documented extremes -- k in {10, 11, 29, 30, 31, 32767, 32768, 40000, 65535} (2 * k past u16: fixed defect "
            "tdigest-C17-two-k-u16-overflow), empty and single-value digests, empty split lists, q = 0 and 1, NaN / infinite updates, "
-           "merges with empty digests and with itself, freeze / round trip -- in debug (overflow checks + debug assertions) and release; "
+           "merges with empty digests and with itself, freeze / round trip, and streams of finite values of both signs next to f64::MAX with "
+           "k 10..20 (Centroid::add's overflow fallback; fixed defect tdigest-C10-huge-value-overflow) and of heavily repeated values -- in debug (overflow checks + debug assertions) and release; "
            "any panic is a violation")
